@@ -16,9 +16,16 @@ EXPLANATION = (
     "iff shorter than one element or an element is non-canonical (validity of from_repr is required on the Ok "
     "path for x and for every y), ignoring only a trailing partial element; (R4) elements are decoded only through "
     "the canonical decoder (C07.R3).  NOT decided: equality of re-encoding with the canonical form for every "
-    "string (a runtime relation), agreement with an independent parser on concrete inputs.")
+    "string (a runtime relation), agreement with an independent parser on concrete inputs."
+    "  Length headers must not pass through an integer type narrower than 4 bytes; the Shamir decoder leaves its element loop only when the input is exhausted.")
 ASSUMPTIONS = ["u32::to_le_bytes / from_le_bytes are inverse; ff from_repr validity is canonical-range validity"]
 TRUSTED = []
+
+
+def narrowed_header(t):
+    """a length passes through an integer type narrower than the 4-byte header on its way into it (`len as u16 as u32`):
+    lengths of 64 KiB and more are then framed with a wrong header"""
+    return Q.contains(t, lambda x: x.op == "cast" and len(x.args) >= 3 and x.args[2] in ("u8", "u16", "i8", "i16"))
 
 
 def classify_writer(parts):
@@ -34,7 +41,7 @@ def classify_writer(parts):
             continue
         t = p[1]
         if t.op == "bytes_of" and t.args[1] == 4 and t.args[2] == "le" and i + 1 < len(ps) and ps[i + 1][0] == "part" and \
-                Q.contains(t.args[0], lambda x: x.op == "len" and x.args[0] is ps[i + 1][1]):
+                Q.contains(t.args[0], lambda x: x.op == "len" and x.args[0] is ps[i + 1][1]) and not narrowed_header(t.args[0]):
             out.append(("lp", ps[i + 1][1]))
             i += 2
             continue
@@ -317,6 +324,16 @@ def shamir_reader_rules(ctx, R1, R3):
             fr_ = Q.find_all(el, lambda t: t.op == "fp_from_repr")
             if fr_ and any(t.op == "ct_valid" and rel == "eq" and v == 1 and Q.contains(t, lambda z: z is fr_[0]) for t, rel, v in f_p):
                 oky_valid = True
+        if not collected:
+            # ... and the Ok path leaves the y loop only because the input is exhausted (a `break` / `continue` on an
+            # invalid element accepts the string with that element dropped)
+            loops = [e for e in Q.calls(eng, "Iterator::next") if e["home"] == fr.key and e.get("result") is not None and
+                     e["result"].op == "enum"]
+            cfs = Q.closure(eng, fs)
+            for e in loops:
+                none_ix = [a[0] for a in e["result"].args[1] if a[1] == "None"]
+                if not any(t.op == "discr" and t.args[0] is e["result"] and rel == "eq" and none_ix and v == none_ix[0] for t, rel, v in cfs):
+                    oky_valid = False
         ctx.add(R3, rroot + "#every-y-must-be-canonical", oky_valid and len(pushes) == 1,
                 "every y element stored must have passed the from_repr validity test (an out-of-range element must reject the share)", at)
     ctx.add(R1, rroot + "#chunk-table", okr, "reader must take x from bytes [0,24) and y_i from [24+24i, 48+24i), i < (len-24)/24: %s" % det, at, sample=det)
